@@ -56,6 +56,42 @@ def c02(run):
         "from a nested JSON grammar with repeated variables, arrays, empty containers) on indexed and linear state; "
         "every result (ids, bindings, bodies) and the storage id set after every call are checked against Engine!Step")
 
+def c06(run):
+    q = run.tier == "quick"
+    for cfg in ["MC_facts.cfg", "MC_expiry_q.cfg" if q else "MC_expiry.cfg"]:
+        run.model_check("EngineMC.tla", cfg)
+    stages = [dict(profile="cascade", n=n(run, 50, 600), extra=["-faults"], label="cascade-faults"),
+              dict(profile="rules", n=n(run, 25, 300), extra=["-faults"], label="rules-faults"),
+              dict(profile="expiry", n=n(run, 20, 250), extra=["-faults"], label="expiry-faults"),
+              dict(profile="parents", n=n(run, 20, 250), extra=["-faults"], label="parents-faults"),
+              dict(profile="cascade", n=n(run, 12, 150), extra=["-store", "bolt", "-faults"], label="cascade-bolt"),
+              dict(profile="expiry", n=n(run, 8, 100), extra=["-store", "bolt"], label="expiry-bolt")]
+    for st in stages:
+        engine_traces(run, **st)
+    # data handed back by the Bolt back end stays intact while the file grows (child process: a stale mmap read is fatal)
+    drv = run.build("enginedrv")
+    for state in ("linear", "indexed"):
+        import subprocess
+        p = subprocess.run([drv, "-profile", "boltalias", "-state", state], cwd=run.tmp, stdout=subprocess.PIPE,
+                           stderr=subprocess.PIPE, text=True, timeout=600)
+        run.cov["evaluations"] = run.cov.get("evaluations", 0) + 1
+        if p.returncode == 2 and "fatal error" not in p.stderr and "panic" not in p.stderr and "SIGSEGV" not in p.stderr:
+            raise Broken("boltalias driver could not run: " + p.stderr[-500:])
+        if p.returncode != 0:
+            from vcheck import crash_signature
+            run.violation("bolt: data from Load not intact after the database grew (%s state): %s" % (
+                state, crash_signature(p.stderr) or (p.stdout + p.stderr)[-300:]),
+                {"driver": "enginedrv", "args": ["-profile", "boltalias", "-state", state], "stderr_head": p.stderr[:2000]},
+                stage="boltalias")
+    run.assumptions += TRUSTED + ["crash points: the store is photographed after each storage write of each operation (the image a crash "
+                                  "at that point leaves); faults: the k-th storage write of an operation fails (k = 1..3)",
+                                  "storage back ends: memory and Bolt (DynamoDB / Cassandra need servers)"]
+    return run.finish(rule="seeded histories (cascades, rules, expiry, parents) on indexed/linear x memory/Bolt storage with the storage "
+                           "wrapper of harness/world/faultstore.go: after every storage write of every operation the whole store is "
+                           "photographed and TLC checks each image against Engine (every id as before or as after the operation; last "
+                           "image = specified state, bodies included); injected write failures must surface as errors, and an "
+                           "acknowledged retry must be in storage (reload follows); Reload operations check reload equivalence")
+
 def c07(run):
     return engine_prop(run, ["MC_expiry.cfg"] if run.tier == "thorough" else ["MC_expiry_q.cfg"],
         [dict(profile="expiry", n=n(run, 40, 400)), dict(profile="expiry-rules", n=n(run, 30, 300))],
@@ -245,7 +281,7 @@ def c03(run):
                            "indexed and linear state, through Location.Query; TLC compares the returned bindings as a BAG with Query!Eval; "
                            "states/transitions: QueryMC (algebraic laws of Eval on all trees up to depth 1/2 x all fact subsets)")
 
-CHECKS = {"C14": c14, "C17": c17, "C18": c18, "C01": c01, "C03": c03, "C04": c04, "C05": c05, "C02": c02, "C07": c07, "C08": c08, "C09": c09, "C10": c10, "C19": c19, "C20": c20}
+CHECKS = {"C06": c06, "C14": c14, "C17": c17, "C18": c18, "C01": c01, "C03": c03, "C04": c04, "C05": c05, "C02": c02, "C07": c07, "C08": c08, "C09": c09, "C10": c10, "C19": c19, "C20": c20}
 
 def replay(run, path):
     rejected, out = run.validate("EngineTrace.tla", "EngineTrace.cfg", path, "replay")
